@@ -17,7 +17,7 @@ structure KeyState where
   inputs   : List Bytes                  -- resolved input paths (may contain duplicates, any order)
   content  : Bytes → Option Bytes        -- file content by input path (`none`: file does not exist)
   outputs  : List Bytes                  -- output definitions (`Output.String()`), any order
-  deps     : List Bytes                  -- output hashes of the direct dependencies, any order
+  deps     : List (Bytes × Bytes)        -- (label, output hash) of every direct dependency (distinct labels), any order
   fingerprint : List (Bytes × Bytes)     -- the fingerprint map (distinct keys), any order
   platform : Option Bytes                -- `none` for multiplatform-cache targets
 
@@ -66,7 +66,7 @@ def canonInputs (s : KeyState) : List Bytes := compactB (sortBytes s.inputs)
 /-- byte stream hashed by `hashTargetDefinition` -/
 def enc (s : KeyState) : Bytes :=
   field s.label ++ field s.command ++ listEnc (canonInputs s) ++ listEnc (sortBytes s.outputs) ++
-  listEnc (sortBytes s.deps) ++ kvEnc (sortKV s.fingerprint) ++
+  kvEnc (sortKV s.deps) ++ kvEnc (sortKV s.fingerprint) ++
   (match s.platform with | none => [] | some p => field p)
 
 /-- one input file in the stream of `hashInputFiles`: a presence byte, and for an existing file the
@@ -98,7 +98,7 @@ def joinComma : List Bytes → Bytes
 
 def encOld (s : KeyState) : Bytes :=
   s.label ++ s.command ++ joinComma (sortBytes s.inputs) ++ joinComma (sortBytes s.outputs) ++
-  joinComma (sortBytes s.deps) ++
+  joinComma (sortBytes (s.deps.map Prod.snd)) ++
   joinComma (sortBytes (s.fingerprint.map (fun kv => kv.1 ++ cEq :: kv.2))) ++
   (match s.platform with | none => [] | some p => p)
 
